@@ -611,10 +611,12 @@ class Network(BaseModel):  # pylint: disable=too-many-public-methods
         """Generate the XY routing info for the network."""
         ni_nodes = self.graph.get_ni_nodes()
         ni_sbr_nodes = [ni for ni in ni_nodes if ni.is_sbr()]
-        min_x = min(ni.id.x for ni in ni_nodes)
-        min_y = min(ni.id.y for ni in ni_nodes)
-        max_x = max(ni.id.x for ni in ni_nodes)
-        max_y = max(ni.id.y for ni in ni_nodes)
+        # Routers without endpoints need a representable coordinate as well
+        node_ids = [ni.id for ni in ni_nodes] + [rt.id for rt in self.graph.get_rt_nodes()]
+        min_x = min(node_id.x for node_id in node_ids)
+        min_y = min(node_id.y for node_id in node_ids)
+        max_x = max(node_id.x for node_id in node_ids)
+        max_y = max(node_id.y for node_id in node_ids)
         max_address = max(max(rng.end for rng in ni.addr_range) for ni in ni_sbr_nodes)
         xy_routing_info = {}
         xy_routing_info["num_x_bits"] = clog2(max_x - min_x + 1)
